@@ -49,6 +49,9 @@ CHECKS = {
  "C16": ("McrewService.tla models the service's critical sections (lock, memory, bolt store, fault toggle); TLC explores every interleaving and fault position for six client scenarios, checks MemEqualsStore on the shape that mirrors the code, and exports the behaviours of the unconstrained 'split' shape as gate schedules; the driver, compiled into cmd/mcrew by overlay, replays them with the verif hooks as gates, runs sequential fault histories (bolt handle closed/reopened at every position) and free concurrent clients; TLC (Trace_Service) searches a linearization of every recorded history against ServiceProp and checks mem = store at quiescent snapshots.",
          "8.C16", "<=4 clients with one operation each in the gated scenarios (quick replays a 480-schedule sample, thorough all ~6,000 plus the -race build); interleavings finer than the hook points and inside bbolt are not controlled; asynchronous re-processing of emissions not covered",
          "implementation-shaped TLA+ model explored by TLC -> gate schedules replayed on the real service -> TLC linearizability trace judge"),
+ "C17": ("Timers.tla models the timer map, requester operations and per-timer goroutines (wait/select/emit/cleanup); TLC explores all interleavings over ids and timer generations, checks CancelledNeverFires, AtMostOnce, PendingSet, IdFree on the shape that mirrors the code, and exports complete behaviours as gate schedules; both real implementations are driven (mcrew by an overlay driver inside cmd/mcrew, sio through a real crew's timers machine) with the verif hooks as gates, with requests issued from inside the firing handler, free-running stress, restart from the reported store (sio) and the race detector as a sensor; TLC (Trace_Timers) searches a linearization of every recorded history against the timer lifecycle of TimersProp.",
+         "8.C17", "one id and two timer generations in the gated schedules (<=9 steps), two ids in stress; Go's select cannot be gated (repetition instead); wall-clock tolerances: 30 ms short delay, final snapshot >=100 ms after the last request; sio requests have no reply, so acceptance is read from the timers machine's error binding (named deviations SioMakeOnPendingCancels, SioRequestIgnored); one open known finding (sio data races)",
+         "implementation-shaped TLA+ model explored by TLC -> gate schedules replayed on both timer implementations -> TLC linearizability trace judge (TimersProp)"),
 }
 def main():
     checks = []
